@@ -39,7 +39,7 @@ PKG = "./contractcourt/"
 HARNESS = ["contractcourt/c13_test.go"]
 MC_WORKERS = int(os.environ.get("C13_MC_WORKERS", "4"))
 QUICK_SCEN = ["local", "remote", "localfar"]
-ALL_SCEN = ["local", "remote", "localfar", "contest", "claim", "success", "breach", "coop"]
+ALL_SCEN = ["local", "remote", "localfar", "contest", "claim", "success", "breach", "coop", "shift", "rshift"]
 QUIRKS = ("F8", "F9", "FCC")
 CONST = {"F8": "F8Fixed", "F9": "F9Fixed", "FCC": "FccFixed"}
 
